@@ -10,6 +10,7 @@ import (
 	"go/token"
 	"go/types"
 	"math/big"
+	"sort"
 	"strings"
 
 	"golang.org/x/tools/go/ssa"
@@ -212,6 +213,9 @@ func (vc *VC) trObj(obj types.Object, env *Env) TV {
 		if g == nil {
 			return vc.errTV("no ssa global for %s", o.Name())
 		}
+		if vc.globalsRead != nil {
+			vc.globalsRead[g] = true
+		}
 		loc := vc.globalLoc(g)
 		t := o.Type()
 		if types.Identical(t, types.Universe.Lookup("error").Type()) && (strings.HasPrefix(g.Name(), "Err") || strings.HasPrefix(g.Name(), "err") || g.Name() == "EOF") {
@@ -297,8 +301,15 @@ func (vc *VC) localByName(name string, env *Env) (TV, bool) {
 		if !ok || id.Name != name {
 			return false
 		}
-		_, isVar := d.Object().(*types.Var)
-		return isVar
+		v, isVar := d.Object().(*types.Var)
+		if !isVar || v.IsField() {
+			return false
+		}
+		// package-level variables are read from the heap (current value), never through debug snapshots
+		if v.Pkg() != nil && v.Parent() == v.Pkg().Scope() {
+			return false
+		}
+		return true
 	}
 	var found *ref
 	var foundPhi *ssa.Phi
@@ -801,6 +812,9 @@ func (vc *VC) trCall(x *ECall, env *Env) TV {
 			}
 		}
 		return vc.errTV("entry(%s): no unique entry value", id.Name)
+	case "wrapi64":
+		a := vc.coerceInt(vc.tr(x.Args[0], env), types.Typ[types.Int64])
+		return TV{T: types.Typ[types.Int64], S: vc.ar.wrap(intInfo{64, true}, a.S)}
 	case "deref":
 		a := vc.tr(x.Args[0], env)
 		pt, ok := a.T.Underlying().(*types.Pointer)
@@ -941,42 +955,77 @@ func (vc *VC) trQuant(x *EQuant, env *Env) TV {
 	if x.Forall {
 		q = "forall"
 	}
-	// choose patterns: terms that mention every bound variable of this quantifier
 	mine := e2.bound[len(e2.bound)-len(x.Vars):]
-	var good []string
-	seen := map[string]bool{}
-	for _, p := range pats {
-		all := true
-		for _, v := range mine {
-			if !containsSym(p, v) {
-				all = false
-			}
-		}
-		if all && !seen[p] && !strings.Contains(p, "(forall") {
-			seen[p] = true
-			good = append(good, p)
-		}
-	}
-	// propagate pattern candidates that mention outer bound variables
+	// propagate pattern candidates to an enclosing quantifier
 	if env.pats != nil {
 		for _, p := range pats {
 			*env.pats = append(*env.pats, p)
 		}
 	}
-	if len(good) > 0 && x.Forall {
-		// single bound variable used as a slice index  base[off + k]: re-index the quantifier by the
-		// absolute element index j = off + k so that the pattern (select H (lelem base j)) is free of
-		// arithmetic (E-matching on terms with + inside is unreliable)
-		if len(mine) == 1 {
-			if nb, np, ok := vc.reindexQuant(mine[0], body, good); ok {
-				return TV{T: types.Typ[types.Bool], S: fmt.Sprintf("(forall ((%s %s)) (! %s :pattern (%s)))", mine[0], vc.ar.IX(), nb, np)}
+	if x.Forall {
+		// 1. re-index every bound variable that is used as a slice index base[off + k] by the absolute
+		//    element index, so that triggers are free of arithmetic
+		var cands []string
+		seen := map[string]bool{}
+		for _, p := range pats {
+			if !seen[p] && !strings.Contains(p, "(forall") && !strings.Contains(p, "(exists") {
+				seen[p] = true
+				cands = append(cands, p)
 			}
 		}
-		var ps []string
-		for _, g := range good {
-			ps = append(ps, ":pattern ("+g+")")
+		trig := map[string]string{}
+		for _, v := range mine {
+			nb, np, nc, ok := vc.reindexVar(v, mine, body, cands)
+			if ok {
+				body, cands = nb, nc
+				trig[v] = np
+			}
 		}
-		return TV{T: types.Typ[types.Bool], S: fmt.Sprintf("(%s (%s) (! %s %s))", q, strings.Join(binders, " "), body, strings.Join(ps, " "))}
+		// 2. triggers: a term mentioning all variables, else one term per variable
+		var all []string
+		for _, c := range cands {
+			ok := true
+			for _, v := range mine {
+				if !containsSym(c, v) {
+					ok = false
+				}
+			}
+			if ok {
+				all = append(all, c)
+			}
+		}
+		if len(mine) == 1 {
+			if t, ok := trig[mine[0]]; ok {
+				return TV{T: types.Typ[types.Bool], S: fmt.Sprintf("(forall (%s) (! %s :pattern (%s)))", strings.Join(binders, " "), body, t)}
+			}
+		}
+		if len(all) > 0 {
+			var ps []string
+			for _, g := range all {
+				ps = append(ps, ":pattern ("+g+")")
+			}
+			return TV{T: types.Typ[types.Bool], S: fmt.Sprintf("(forall (%s) (! %s %s))", strings.Join(binders, " "), body, strings.Join(ps, " "))}
+		}
+		var multi []string
+		for _, v := range mine {
+			t := trig[v]
+			if t == "" {
+				for _, c := range cands {
+					if containsSym(c, v) {
+						t = c
+						break
+					}
+				}
+			}
+			if t == "" {
+				multi = nil
+				break
+			}
+			multi = append(multi, t)
+		}
+		if len(multi) > 0 {
+			return TV{T: types.Typ[types.Bool], S: fmt.Sprintf("(forall (%s) (! %s :pattern (%s)))", strings.Join(binders, " "), body, strings.Join(multi, " "))}
+		}
 	}
 	return TV{T: types.Typ[types.Bool], S: fmt.Sprintf("(%s (%s) %s)", q, strings.Join(binders, " "), body)}
 }
@@ -1070,50 +1119,66 @@ func (vc *VC) typeFromAST(e ast.Expr, pkg *types.Package) types.Type {
 
 var _ = token.NoPos
 
-// reindexQuant: if some pattern candidate has the shape (select H (lelem B (+ O k))) with k the bound
-// variable and H, B, O free of k, substitute k := (- k O) in the body; the candidate becomes
-// (select H (lelem B k)).
-func (vc *VC) reindexQuant(k, body string, cands []string) (string, string, bool) {
+// reindexVar: if some candidate has the shape (select H (lelem B (+ O k))) with H, B, O free of every
+// bound variable, substitute k := (- k O) in the body and in all candidates; the candidate becomes
+// (select H (lelem B k)), which is returned as the trigger for k.
+func (vc *VC) reindexVar(k string, bound []string, body string, cands []string) (string, string, []string, bool) {
 	add, sub := "+", "-"
 	if vc.ar.BV {
 		add, sub = "bvadd", "bvsub"
 	}
-	// only for IX-sorted binders
-	for _, c := range cands {
-		// find "(lelem B (+ O k))" inside c with c == "(select H (lelem ...))"
+	free := func(t string) bool {
+		for _, b := range bound {
+			if containsSym(t, b) {
+				return false
+			}
+		}
+		return true
+	}
+	sorted := append([]string{}, cands...)
+	sort.SliceStable(sorted, func(i, j int) bool {
+		hi, hj := strings.SplitN(sorted[i], " ", 3), strings.SplitN(sorted[j], " ", 3)
+		if len(hi) < 2 || len(hj) < 2 {
+			return false
+		}
+		return !strings.Contains(hi[1], "!") && strings.Contains(hj[1], "!")
+	})
+	for _, c := range sorted {
 		if !strings.HasPrefix(c, "(select ") {
 			continue
 		}
-		inner := c[len("(select ") : len(c)-1]
-		parts := splitSexp(inner)
-		if len(parts) != 2 || containsSym(parts[0], k) || !strings.HasPrefix(parts[1], "(lelem ") {
+		parts := splitSexp(c[len("(select ") : len(c)-1])
+		if len(parts) != 2 || !free(parts[0]) || !strings.HasPrefix(parts[1], "(lelem ") {
 			continue
 		}
 		le := splitSexp(parts[1][len("(lelem ") : len(parts[1])-1])
-		if len(le) != 2 || containsSym(le[0], k) {
+		if len(le) != 2 || !free(le[0]) {
 			continue
 		}
-		idx := le[1]
 		prefix := "(" + add + " "
-		if !strings.HasPrefix(idx, prefix) {
+		if !strings.HasPrefix(le[1], prefix) {
 			continue
 		}
-		ops := splitSexp(idx[len(prefix) : len(idx)-1])
-		if len(ops) != 2 || ops[1] != k || containsSym(ops[0], k) {
+		ops := splitSexp(le[1][len(prefix) : len(le[1])-1])
+		if len(ops) != 2 || ops[1] != k || !free(ops[0]) {
 			continue
 		}
 		off := ops[0]
 		repl := "(" + sub + " " + k + " " + off + ")"
-		nb := replaceSym(body, k, repl)
-		// simplify (+ O (- k O)) -> k
-		nb = strings.ReplaceAll(nb, "("+add+" "+off+" "+repl+")", k)
+		simp := "(" + add + " " + off + " " + repl + ")"
+		fix := func(t string) string { return strings.ReplaceAll(replaceSym(t, k, repl), simp, k) }
+		nb := fix(body)
 		np := "(select " + parts[0] + " (lelem " + le[0] + " " + k + "))"
 		if !strings.Contains(nb, np) {
 			continue
 		}
-		return nb, np, true
+		var nc []string
+		for _, x := range cands {
+			nc = append(nc, fix(x))
+		}
+		return nb, np, nc, true
 	}
-	return "", "", false
+	return "", "", nil, false
 }
 
 // replaceSym replaces whole-symbol occurrences of sym in t.
